@@ -273,6 +273,18 @@ def doCfgG (l : Line) : Option String := do
   | "derivative" => some (show' (o.derivativeBy Gen.FiniteDiff.derivSpec))
   | _ => none
 
+/-- `supported method=<name> pad=<name>` → `ok method=0|1 pad=0|1`: membership of the (already
+lower-cased) names in the GENERATED `_SUPPORTED_DIFF_METHODS` / `_SUPPORTED_PAD_MODES`; every
+constructor and `finite_diff` raise ValueError for a name outside them. -/
+def doSupported (l : Line) : Option String := do
+  let m ← l.get? "method"
+  let p ← l.get? "pad"
+  let okM := match methodOf m with
+    | some x => Gen.FiniteDiff.methods.contains x | none => false
+  let okP := match padOf p with
+    | some x => Gen.FiniteDiff.pads.contains x | none => false
+  some s!"ok method={if okM then 1 else 0} pad={if okP then 1 else 0}"
+
 /-- `tables` → the generated lists and dictionaries, for comparison with the live module. -/
 def doTables (_ : Line) : Option String :=
   let ms := Gen.FiniteDiff.methods
@@ -294,6 +306,7 @@ def handle (l : Line) : Option String :=
   | "cfg" => doCfg l
   | "cfgg" => doCfgG l
   | "inner" => doInner l
+  | "supported" => doSupported l
   | _ => none
 
 def main : IO Unit := driverLoop handle
